@@ -226,6 +226,15 @@ def run(tier):
                          "(a, a, b, b): the result is b < a" % (tag, wrong[0]), dict(order=wrong[0]))
         else:
             rep.ok(okey, "R07.lex", None)
+        # nothing but the index bases may decide the order ahead of the elements: an operand of smaller size is smaller only if it is a prefix
+        gkey = "R07.lexguard(%s)" % tag
+        sized = sorted({formula.show_atom(a, 120) for a in formula.atoms_of(trees[fn])
+                        if isinstance(a, tuple) and a and a[0] == "cmp" and re.search(r"layout_t::(size|num_elements)\(\) const|extensions_t::num_elements", repr(a))})
+        if sized:
+            rep.violated("R07.lexguard(D%s:%s)" % (">1" if D > 1 else "=%d" % D, cn), "R07.lex", "a < b (%s) is decided by a comparison of sizes before any element is looked at (%s): "
+                         "the order is not lexicographic (a shorter operand is smaller only when it is a prefix)" % (tag, sized[0]), dict(atoms=sized))
+        else:
+            rep.ok(gkey, "R07.lex", None)
         if D == 0:
             continue
         nrel += 1
